@@ -171,3 +171,93 @@ def gen_doc(rnd, mem, start, end, wrap_ok=False, annotate=False, allow_i=True, i
         a += blen
     lines.append('i %d' % end)
     return lines
+
+
+# ---- character-operand code (base 'c' on instruction operands) ----------------------------------------------------------
+# the characters that have a meaning of their own in an operation / a skool line / a string literal, then letters of both cases
+AWKWARD = (92, 34, 32, 59, 58, 44, 40, 41, 43, 45)
+CHAR_POOL = AWKWARD + (97, 122, 65, 90, 104, 120, 72, 88, 98, 66, 48, 57, 36, 37, 35, 39, 64, 91, 93, 123, 125, 126, 94, 96, 95, 33)
+CHAR_BASES = ('c', 'c', 'cc', 'cn', 'nc', 'ch', 'hc', 'cd', 'dc', 'cb', 'bc')
+
+
+def _char_templates():
+    """Instruction templates: 'd' = index displacement, 'n' = 8-bit immediate / port, 'l' = low byte of a 16-bit operand
+    (its high byte is 0, so the value is a character code)."""
+    t = []
+    for x in (0xDD, 0xFD):
+        t += [[x, 0x36, 'd', 'n']] * 4
+        t += [[x, 0x46 + 8 * r, 'd'] for r in (0, 1, 2, 3, 4, 5, 7)]
+        t += [[x, 0x70 + r, 'd'] for r in (0, 1, 2, 3, 4, 5, 7)]
+        t += [[x, 0x86 + 8 * k, 'd'] for k in range(8)]
+        t += [[x, 0x34, 'd'], [x, 0x35, 'd']]
+        t += [[x, 0xCB, 'd', op] for op in (0x06, 0x16, 0x2E, 0x3E, 0x46, 0x4E, 0x7E, 0x86, 0x8E, 0xC6, 0xCE, 0xFE,
+                                           0x00, 0x11, 0x88, 0xC8, 0xC9, 0xFF, 0x40, 0x79, 0x37)]
+        t += [[x, 0x26, 'n'], [x, 0x2E, 'n'], [x, 0x21, 'l', 0], [x, 0x22, 'l', 0], [x, 0x2A, 'l', 0]]
+    t += [[0x06 + 8 * r, 'n'] for r in range(8)]
+    t += [[0xC6 + 8 * k, 'n'] for k in range(8)]
+    t += [[0xDB, 'n'], [0xD3, 'n']]
+    t += [[op, 'l', 0] for op in (0x01, 0x11, 0x21, 0x31, 0x22, 0x2A, 0x32, 0x3A, 0xC3, 0xCD, 0xCA)]
+    t += [[0xED, op, 'l', 0] for op in (0x43, 0x4B, 0x53, 0x5B, 0x73, 0x7B, 0x63, 0x6B)]
+    t += [[0x00], [0xAF], [0x78]]
+    return t
+
+
+CHAR_TEMPLATES = _char_templates()
+
+
+def gen_char_image(rnd, n, phase):
+    """n bytes of code whose numeric operands are printable characters. The operand values walk CHAR_POOL (so every
+    awkward character turns up in every kind of operand position within a few images, whatever the seed), with some
+    random printable characters in between; `phase` shifts the walk from one image to the next."""
+    out = []
+    slot = {'d': phase, 'n': phase * 7 + 3, 'l': phase * 5 + 1}
+    while len(out) < n:
+        for b in rnd.choice(CHAR_TEMPLATES):
+            if isinstance(b, str):
+                if rnd.random() < 0.75:
+                    v = CHAR_POOL[slot[b] % len(CHAR_POOL)]
+                    slot[b] += 1
+                elif rnd.random() < 0.5:
+                    v = rnd.choice(AWKWARD)
+                else:
+                    v = rnd.randrange(32, 127)
+                out.append(v)
+            else:
+                out.append(b)
+    return out[:n]
+
+
+def gen_char_doc(rnd, mem, start, end, rst=False, wrap_ok=False):
+    """One c block over [start, end) (a b block for a tail that is no whole instruction) whose C sub-blocks carry a
+    character base on one or both operands."""
+    p = start
+    bounds = [p]
+    while p < end:
+        ln = z80len.length(mem, p)
+        if rst and mem[p & 0xFFFF] == 0xCF:
+            ln = 2
+        if p + ln > end:
+            if wrap_ok and end == 65536:
+                p = end
+                bounds.append(p)
+            break
+        p += ln
+        bounds.append(p)
+    lines = []
+    if len(bounds) > 1:
+        lines.append('c %d' % start)
+        i = 0
+        while i < len(bounds) - 1:
+            j = min(len(bounds) - 1, i + rnd.randrange(1, 5))
+            sa, sl = bounds[i], bounds[j] - bounds[i]
+            if rnd.random() < 0.7:
+                lines.append('C %d,%s%d' % (sa, rnd.choice(CHAR_BASES), sl))
+            else:
+                subs = ['%s%d' % (rnd.choice(CHAR_BASES), bounds[t + 1] - bounds[t]) for t in range(i, j)]
+                lines.append('C %d,%d,%s' % (sa, sl, ','.join(subs)))
+            i = j
+    if bounds[-1] < end:
+        lines.append('b %d' % bounds[-1])
+        lines.append('B %d,%s%d' % (bounds[-1], rnd.choice(('', 'c', 'h')), end - bounds[-1]))
+    lines.append('i %d' % end)
+    return lines
